@@ -26,6 +26,11 @@ OUTSIDE = {
  "r14-C15-v1": "a recovery that waits for the end of the request body is slow, not wrong; the body of the case ends after 300 ms (third review)",
  "r13-C03-v2": "whether an informational status counts as 'written' is C13's to say (third review; C13 reports it)",
  "r14-C03-v2": "whether a Write of no bytes counts as 'written' is C13's to say (third review; C13 reports it)",
+ "r18-C01-v1": "needs AutoHead: C01 registers flat route sets without it (C11 and C10 report it)",
+ "r18-C05-v1": "a memo inside the injector keyed by struct type: applied by value and by pointer (C04, which does both, reports it without any concurrency)",
+ "r18-C07-v1": "needs a handler that registers a route while its own request is being served: every statement takes set-up to be finished before requests arrive",
+ "r18-C07-v2": "shows only when a handler writes into Params() of a route without binds: whose map that is was left open by the second review (as r6-C05-v1)",
+ "r18-C18-v1": "which name a placeholder segment is bound under is decided in the tree: C18 sends its values through one placeholder route (C02 and C01 report it)",
  "r17-C05-v1": "a memo inside the injector keyed by the printed signature: C05 has no two handler types that print alike (C04, whose generator has them, reports it at once, without any concurrency)",
  "r17-C18-v1": "what a regex bind made of several groups captures is decided before any accessor runs: C18 sends its values through a placeholder route (C02, which generates such expressions, reports it)",
  "r16-C11-v1": "the defect shows through Headers(), which is not part of C11 (C09 and C10 report it)",
@@ -39,6 +44,9 @@ OUTSIDE = {
  "r14-C06-v1": "the README's second EBNF lets a parameter follow a regex value without a comma: accept / reject is open there (second review)",
  "r14-C18-v2": "what an accessor returns for a well-formed number out of range is declared unspecified (assumption of C18)",
 }
+import subprocess, sys
+HEAD = subprocess.run("git -C /repo rev-parse --short HEAD", shell=True, capture_output=True, text=True).stdout.strip()
+stale = []
 rows = []
 for d in sorted(glob.glob(os.path.join(VERIF, "seeded", "*"))):
     mp = os.path.join(d, "meta.json")
@@ -46,6 +54,8 @@ for d in sorted(glob.glob(os.path.join(VERIF, "seeded", "*"))):
         continue
     m = json.load(open(mp))
     valid = m.get("demo_passes_without_patch") and m.get("demo_fails_with_patch") and m.get("suite_passes_with_patch")
+    if HEAD and m.get("checked_at_repo_commit") != HEAD:
+        stale.append(m["name"])  # confirmed against an older /repo: re-run tools/evalseed.py on it
     checks = m.get("checks", {})
     caught = [k for k, v in checks.items() if v.get("caught")]
     missed = [k for k, v in checks.items() if not v.get("caught")]
@@ -64,3 +74,5 @@ if a in s and b in s:
     s = s[: s.index(a) + len(a)] + "\n" + table + "\n" + s[s.index(b):]
     open(p, "w").write(s)
 print(table)
+if stale:
+    print("WARNING: %d seeds were last confirmed against an older /repo commit than %s: %s" % (len(stale), HEAD, " ".join(stale)), file=sys.stderr)
